@@ -7,8 +7,9 @@
    object lookup is total: [nth] with a default). Recursion that Go performs without a bound carries explicit fuel;
    [OutOfFuel] corresponds to a stack overflow / endless walk.
 
-   Models the code after C04-fix-4 (getSource: bounded loop), C04-fix-5 (hardlink to a directory rejected),
-   C04-fix-6 (assignIDs visits an entry once). *)
+   A hardlink to a directory is accepted (supported behaviour): the child graph may be cyclic or share subtrees.
+   Models the code after C04-fix-4 (getSource: bounded loop), C04-fix-6 (assignIDs visits an entry once),
+   C04-fix-5 (the prefetch walk cacheWithReader visits a directory once). *)
 From Coq Require Import List Arith ZArith Bool.
 From SV Require Import Model.Footer.
 Import ListNotations.
@@ -107,9 +108,7 @@ Fixpoint pass2 (fuel : nat) (es : list entry) (i : nat) (s : st) : outcome st :=
           | Ok (s1, pid) =>
               if is_hardlink (e_ty e) then
                 match get_source_of s1 i with
-                | Ok org =>
-                    if is_dir (e_ty (obj s1 org)) then Err           (* C04-fix-5 *)
-                    else pass2 fuel t (S i) (add_child s1 pid (last nm 0) org)
+                | Ok org => pass2 fuel t (S i) (add_child s1 pid (last nm 0) org)
                 | Err => Err | Panic => Panic | OutOfFuel => OutOfFuel
                 end
               else pass2 fuel t (S i) (add_child s1 pid (last nm 0) i)
@@ -150,37 +149,39 @@ Fixpoint go_children (rec : nat -> list name -> outcome (list name)) (cs : list 
                    end
   end.
 
-(* assignIDs.mapChildren after C04-fix-6; [vis] = keys of idOfEntry *)
-Fixpoint map_children (fuel : nat) (s : st) (id : nat) (vis : list name) : outcome (list name) :=
+(* Depth-first visit with a visited set keyed by entry name (= id: assignIDs gives one id per name).
+   [rej]: entries on which the visit fails; [desc]: children the visit descends into. Two instances:
+   - assignIDs.mapChildren after C04-fix-6: rej = hardlink entries, every child is visited;
+   - the directory walk of fs/reader cacheWithReader after C04-fix-5 (and of the harness): only directories are
+     descended into, each once. *)
+Fixpoint visit (rej desc : entry -> bool) (fuel : nat) (s : st) (id : nat) (vis : list name) : outcome (list name) :=
   match fuel with
   | O => OutOfFuel
   | S f =>
       let o := obj s id in
-      if is_hardlink (e_ty o) then Err
+      if rej o then Err
       else if mem_name (e_name o) vis then Ok vis
-      else go_children (map_children f s) (children s id) (e_name o :: vis)
+      else go_children (fun c v => if desc (obj s c) then visit rej desc f s c v else Ok v)
+                       (children s id) (e_name o :: vis)
   end.
 
+Definition map_children := visit (fun o => is_hardlink (e_ty o)) (fun _ => true).
 Definition assign_ids (s : st) (root : nat) : outcome (list name) :=
   map_children (S (S (length (objs s)))) s root [].
 
-(* the walk of every consumer (prefetch cacheWithReader, FUSE readdir/lookup, the harness): descend into directories *)
-Fixpoint walk (fuel : nat) (s : st) (id : nat) (path : name) : outcome (list (name * nat)) :=
-  match fuel with
-  | O => OutOfFuel
-  | S f =>
-      (fix go (cs : list (nat * nat)) : outcome (list (name * nat)) :=
-         match cs with
-         | [] => Ok []
-         | (b, c) :: t =>
-             let p := path ++ [b] in
-             let sub := if is_dir (e_ty (obj s c)) then walk f s c p else Ok [] in
-             match sub, go t with
-             | Ok l1, Ok l2 => Ok ((p, if is_dir (e_ty (obj s c)) then 0 else 1) :: l1 ++ l2)
-             | Ok _, r => r
-             | r, _ => r
-             end
-         end) (children s id)
+Definition walk_dirs (s : st) (root : nat) : outcome (list name) :=
+  visit (fun _ => false) (fun o => is_dir (e_ty o)) (S (S (length (objs s)))) s root [].
+
+(* what the walk sees: one item (base name, 0 = directory / 1 = other) per child of every visited directory *)
+Definition dir_items (s : st) (id : nat) : list (name * nat) :=
+  map (fun bc => ([fst bc], if is_dir (e_ty (obj s (snd bc))) then 0 else 1)) (children s id).
+Fixpoint listing_of (s : st) (vis : list name) : list (name * nat) :=
+  match vis with
+  | [] => []
+  | k :: t => match m_find (m s) k with
+              | Some id => dir_items s id ++ listing_of s t
+              | None => listing_of s t
+              end
   end.
 
 (* memory.NewReader + full walk: number of ids, listing *)
@@ -194,8 +195,8 @@ Definition tree_run (es : list entry) : outcome (nat * list (name * nat)) :=
           | Ok root =>
               match assign_ids s root with
               | Ok vis =>
-                  match walk (S (length (objs s))) s root [] with
-                  | Ok l => Ok (length vis, l)
+                  match walk_dirs s root with
+                  | Ok dirs => Ok (length vis, listing_of s dirs)
                   | Err => Err | Panic => Panic | OutOfFuel => OutOfFuel
                   end
               | Err => Err | Panic => Panic | OutOfFuel => OutOfFuel
@@ -206,7 +207,8 @@ Definition tree_run (es : list entry) : outcome (nat * list (name * nat)) :=
   | Err => Err | Panic => Panic | OutOfFuel => OutOfFuel
   end.
 
-(* listings compared as sets of equal size *)
+(* listings compared as multisets *)
 Definition item_eqb (a b : name * nat) : bool := name_eqb (fst a) (fst b) && Nat.eqb (snd a) (snd b).
+Definition count_item (x : name * nat) (l : list (name * nat)) : nat := length (filter (item_eqb x) l).
 Definition listing_eqb (a b : list (name * nat)) : bool :=
-  Nat.eqb (length a) (length b) && forallb (fun x => existsb (item_eqb x) b) a && forallb (fun x => existsb (item_eqb x) a) b.
+  Nat.eqb (length a) (length b) && forallb (fun x => Nat.eqb (count_item x a) (count_item x b)) a.
